@@ -809,6 +809,253 @@ theorem doc_tax_inc (d : Doc) (p : Pre) (tx : TaxTotal) (hd : DocTI ret d) (hpre
           push_cast
           linarith
 
+/-! ## payable, advances, due from any working total with tax -/
+
+theorem pay_chain (d : Doc) (twt : Amount) (W : ℕ) (htwe : d.c + 2 ≤ twt.exp)
+    (hTW : |twt.toRat - (Spec.C01.exactQ d).totalWithTax| ≤ (W : ℚ) * halfUlp (d.c + 2))
+    (hround : ∀ x, d.rounding = some x → x.exp ≤ d.c + 2) (hadv : ∀ a ∈ d.advances, AdvOk d.c a)
+    (payable : Amount) (adv : Option Amount)
+    (hpay : payable = (match d.rounding with | some x => add exactOps twt x | none => twt))
+    (hadvT : adv = (if d.hasPayment then
+        advanceTotal exactOps d.c (d.advances.map (calcAdvance exactOps d.c twt)) else none)) :
+    |payable.toRat - (Spec.C01.exactQ d).payable| ≤ (W : ℚ) * halfUlp (d.c + 2) ∧
+    |optQ adv - (Spec.C01.exactQ d).advances| ≤ ((d.advances.length * (1 + W) : ℕ) : ℚ) * halfUlp (d.c + 2) ∧
+    (∀ y, adv.map (fun x => sub exactOps payable x) = some y →
+      |y.toRat - (Spec.C01.exactQ d).due| ≤ ((W + d.advances.length * (1 + W) : ℕ) : ℚ) * halfUlp (d.c + 2)) := by
+  have h0 := halfUlp_nonneg (d.c + 2)
+  have hh : halfUlp twt.exp ≤ halfUlp (d.c + 2) := halfUlp_mono _ _ htwe
+  have hPe : payable.exp = twt.exp ∧
+      |payable.toRat - (Spec.C01.exactQ d).payable| ≤ (W : ℚ) * halfUlp (d.c + 2) := by
+    rw [hpay, exactQ_payable]
+    cases hr : d.rounding with
+    | none => simp only [add_zero]; exact ⟨trivial, hTW⟩
+    | some x =>
+      simp only [add_exp]
+      refine ⟨trivial, ?_⟩
+      rw [add_toRat _ _ (by have := hround x hr; omega)]
+      have e : twt.toRat + x.toRat - ((Spec.C01.exactQ d).totalWithTax + x.toRat) =
+          twt.toRat - (Spec.C01.exactQ d).totalWithTax := by ring
+      rw [e]; exact hTW
+  have hAe : (∀ s, adv = some s → s.exp ≤ twt.exp) ∧
+      |optQ adv - (Spec.C01.exactQ d).advances| ≤ ((d.advances.length * (1 + W) : ℕ) : ℚ) * halfUlp (d.c + 2) := by
+    rw [hadvT, exactQ_advances]
+    cases hp : d.hasPayment with
+    | false =>
+      simp only [Bool.false_eq_true, if_false]
+      refine ⟨fun s hs => (by cases hs), ?_⟩
+      simp only [optQ, Option.map_none, Option.getD_none, sub_self, abs_zero]
+      positivity
+    | true =>
+      simp only [if_true]
+      have hok : ∀ a ∈ d.advances.map (calcAdvance exactOps d.c twt), a.amount.exp ≤ twt.exp := by
+        intro a ha
+        simp only [List.mem_map] at ha
+        obtain ⟨a0, ha0, rfl⟩ := ha
+        exact (calcAdvance_ok d.c twt a0 (hadv a0 ha0) htwe 0).1
+      obtain ⟨a1, a2⟩ := advanceTotal_w d.c twt.exp _ (by omega) hok
+      refine ⟨a1, ?_⟩
+      rw [a2, List.map_map]
+      have hB : ∀ a ∈ d.advances, |((fun a => a.amount.toRat) ∘ calcAdvance exactOps d.c twt) a
+          - advQ (Spec.C01.exactQ d).totalWithTax a| ≤ (1 + (W : ℚ)) * halfUlp (d.c + 2) := by
+        intro a ha
+        have := (calcAdvance_ok d.c twt a (hadv a ha) htwe (Spec.C01.exactQ d).totalWithTax).2
+        simp only [Function.comp]
+        linarith
+      refine le_trans (list_sum_diff_le d.advances _ _ _ hB) (le_of_eq ?_)
+      push_cast; ring
+  refine ⟨hPe.2, hAe.2, ?_⟩
+  intro y hy
+  cases ha : adv with
+  | none => rw [ha] at hy; cases hy
+  | some s =>
+    rw [ha] at hy
+    simp only [Option.map_some, Option.some.injEq] at hy
+    subst hy
+    rw [sub_toRat _ _ (by rw [hPe.1]; exact hAe.1 s ha), exactQ_due]
+    have h2 := hAe.2
+    rw [ha] at h2
+    simp only [optQ, Option.map_some, Option.getD_some] at h2
+    have e : payable.toRat - s.toRat -
+        ((Spec.C01.exactQ d).payable - (Spec.C01.exactQ d).advances) =
+        (payable.toRat - (Spec.C01.exactQ d).payable) - (s.toRat - (Spec.C01.exactQ d).advances) := by ring
+    rw [e]
+    refine le_trans (abs_sub _ _) ?_
+    have := hPe.2
+    push_cast at h2 ⊢
+    linarith
+
+/-! ## all working totals of a document whose prices may include a tax category -/
+
+/-- the document class of `calc_eq_spec_included` -/
+structure DocCI (ret : String → Bool) (d : Doc) : Prop where
+  tax : DocTI ret d
+  rounding : ∀ x, d.rounding = some x → x.exp ≤ d.c + 2
+  advances : ∀ a ∈ d.advances, AdvOk d.c a
+
+theorem working_spec_inc (d : Doc) (p : Pre) (tx : TaxTotal) (hd : DocCI ret d) (hpre : pre exactOps d = .ok p)
+    (htx : taxTotal exactOps d.rule d.c d.includes p.rows = .ok tx) :
+    |(rawTotals exactOps d p tx).sum.toRat - (Spec.C01.exactQ d).sum| ≤
+      (sumW d.lines : ℚ) * halfUlp (d.c + 2) ∧
+    |optQ (rawTotals exactOps d p tx).discount - (Spec.C01.exactQ d).discount| ≤
+      (adjW (sumW d.lines) d.discounts.length : ℚ) * halfUlp (d.c + 2) ∧
+    |optQ (rawTotals exactOps d p tx).charge - (Spec.C01.exactQ d).charge| ≤
+      (adjW (sumW d.lines) d.charges.length : ℚ) * halfUlp (d.c + 2) ∧
+    |optQ (rawTotals exactOps d p tx).taxIncluded - (Spec.C01.exactQ d).taxIncluded| ≤
+      (incWI d (incGroupsOf d.includes tx.cats) : ℚ) * halfUlp (d.c + 2) ∧
+    |(rawTotals exactOps d p tx).total.toRat - (Spec.C01.exactQ d).total| ≤
+      (totalWI d (incGroupsOf d.includes tx.cats) : ℚ) * halfUlp (d.c + 2) ∧
+    |(rawTotals exactOps d p tx).tax.toRat - (Spec.C01.exactQ d).tax| ≤
+      (taxWI d (groupsOf tx.cats) : ℚ) * halfUlp (d.c + 2) ∧
+    |(rawTotals exactOps d p tx).totalWithTax.toRat - (Spec.C01.exactQ d).totalWithTax| ≤
+      (twtWI d (groupsOf tx.cats) (incGroupsOf d.includes tx.cats) : ℚ) * halfUlp (d.c + 2) ∧
+    |(rawTotals exactOps d p tx).payable.toRat - (Spec.C01.exactQ d).payable| ≤
+      (twtWI d (groupsOf tx.cats) (incGroupsOf d.includes tx.cats) : ℚ) * halfUlp (d.c + 2) ∧
+    |optQ (rawTotals exactOps d p tx).advances - (Spec.C01.exactQ d).advances| ≤
+      (advWI d (groupsOf tx.cats) (incGroupsOf d.includes tx.cats) : ℚ) * halfUlp (d.c + 2) ∧
+    (∀ y, (rawTotals exactOps d p tx).due = some y →
+      |y.toRat - (Spec.C01.exactQ d).due| ≤
+        (dueWI d (groupsOf tx.cats) (incGroupsOf d.includes tx.cats) : ℚ) * halfUlp (d.c + 2)) := by
+  have hA := hd.tax.base
+  obtain ⟨_, _, _, _, _, _, hds, hcs, _, _⟩ := pre_unpack d p hpre
+  obtain ⟨hrel, hsum, hsexp, hS, hdis, hch, hrows, te, hb⟩ := pre_spec d p hA hpre
+  obtain ⟨x1, x2, x3, x4⟩ := doc_tax_inc d p tx hd.tax hpre htx
+  have h0 := halfUlp_nonneg (d.c + 2)
+  set G := groupsOf tx.cats
+  set Gk := incGroupsOf d.includes tx.cats
+  -- discount and charge totals
+  have hkd : (0 : ℚ) ≤ (d.discounts.length : ℚ) := by positivity
+  have hkc : (0 : ℚ) ≤ (d.charges.length : ℚ) := by positivity
+  have hdq := (adjSum_ok d.c p.sum d.discounts (Spec.C01.exactQ d).sum hA.discounts hsexp).2
+  have hcq := (adjSum_ok d.c p.sum d.charges (Spec.C01.exactQ d).sum hA.charges hsexp).2
+  rw [← hdis, ← hds] at hdq
+  rw [← hch, ← hcs] at hcq
+  have hrow : |p.sum.toRat - (Spec.C01.exactQ d).sum| + halfUlp (d.c + 2) ≤
+      (1 + (sumW d.lines : ℚ)) * halfUlp (d.c + 2) := by linarith
+  have hD : |optQ p.dsum - (Spec.C01.exactQ d).discount| ≤ (adjW (sumW d.lines) d.discounts.length : ℚ) * halfUlp (d.c + 2) := by
+    rw [exactQ_discount]
+    refine le_trans (le_trans hdq (mul_le_mul_of_nonneg_left hrow hkd)) (le_of_eq ?_)
+    unfold adjW; push_cast; ring
+  have hC : |optQ p.csum - (Spec.C01.exactQ d).charge| ≤ (adjW (sumW d.lines) d.charges.length : ℚ) * halfUlp (d.c + 2) := by
+    rw [exactQ_charge]
+    refine le_trans (le_trans hcq (mul_le_mul_of_nonneg_left hrow hkc)) (le_of_eq ?_)
+    unfold adjW; push_cast; ring
+  -- total = sum − discounts + charges − included tax
+  have f5 : (rawTotals exactOps d p tx).total =
+      (match taxIncluded d.includes tx with | some x => sub exactOps p.total2 x | none => p.total2) := rfl
+  have hT3 : (rawTotals exactOps d p tx).total.exp = p.sum.exp ∧
+      (rawTotals exactOps d p tx).total.toRat = p.total2.toRat - optQ (taxIncluded d.includes tx) := by
+    rw [f5]
+    cases hc : taxIncluded d.includes tx with
+    | none => simp [optQ, te]
+    | some x =>
+      simp only [sub_exp, optQ, Option.map_some, Option.getD_some]
+      exact ⟨te, sub_toRat _ _ (by rw [te]; exact x3 x hc)⟩
+  have hT : |(rawTotals exactOps d p tx).total.toRat - (Spec.C01.exactQ d).total| ≤
+      (totalWI d Gk : ℚ) * halfUlp (d.c + 2) := by
+    rw [hT3.2, exactQ_total]
+    have e : p.total2.toRat - optQ (taxIncluded d.includes tx) - ((Spec.C01.exactQ d).sum - (Spec.C01.exactQ d).discount
+          + (Spec.C01.exactQ d).charge - (Spec.C01.exactQ d).taxIncluded) =
+        (p.total2.toRat - ((Spec.C01.exactQ d).sum - (Spec.C01.exactQ d).discount + (Spec.C01.exactQ d).charge))
+        - (optQ (taxIncluded d.includes tx) - (Spec.C01.exactQ d).taxIncluded) := by ring
+    rw [e]
+    refine le_trans (abs_sub _ _) ?_
+    unfold totalWI; push_cast; linarith
+  -- total with tax
+  have f7 : (rawTotals exactOps d p tx).totalWithTax = add exactOps (rawTotals exactOps d p tx).total tx.precise := rfl
+  have htwe : (rawTotals exactOps d p tx).totalWithTax.exp = p.sum.exp := by rw [f7, add_exp]; exact hT3.1
+  have hTW : |(rawTotals exactOps d p tx).totalWithTax.toRat - (Spec.C01.exactQ d).totalWithTax| ≤
+      (twtWI d G Gk : ℚ) * halfUlp (d.c + 2) := by
+    rw [f7, add_toRat _ _ (by rw [hT3.1]; exact x1), exactQ_twt]
+    have e : (rawTotals exactOps d p tx).total.toRat + tx.precise.toRat - ((Spec.C01.exactQ d).total + (Spec.C01.exactQ d).tax) =
+        ((rawTotals exactOps d p tx).total.toRat - (Spec.C01.exactQ d).total) + (tx.precise.toRat - (Spec.C01.exactQ d).tax) := by ring
+    rw [e]
+    refine le_trans (abs_add_le _ _) ?_
+    unfold twtWI; push_cast; linarith
+  have hpc := pay_chain d (rawTotals exactOps d p tx).totalWithTax (twtWI d G Gk) (by rw [htwe]; exact hsexp) hTW
+    hd.rounding hd.advances (rawTotals exactOps d p tx).payable (rawTotals exactOps d p tx).advances
+    (by simp only [rawTotals]; cases d.rounding <;> rfl) rfl
+  obtain ⟨p1, p2, p3⟩ := hpc
+  refine ⟨hS, hD, hC, x4, hT, x2, hTW, p1, ?_, ?_⟩
+  · unfold advWI; exact p2
+  · intro y hy
+    unfold dueWI advWI
+    exact p3 y hy
+
+theorem groupsT_round_inc (d : Doc) (p : Pre) (tx : TaxTotal) :
+    incGroupsT d.includes (roundTotals exactOps d.c (rawTotals exactOps d p tx)) = incGroupsOf d.includes tx.cats := by
+  unfold incGroupsT
+  simp only [roundTotals, rawTotals]
+  split
+  · rename_i tx' h
+    split at h
+    · cases h
+    · injection h with h; rw [h]
+  · rename_i h
+    split at h
+    · rename_i he
+      have : tx.cats = [] := by simpa using he
+      rw [this]
+      cases d.includes <;> rfl
+    · cases h
+
+/-! ## the decided class -/
+
+theorem incPosB_sound (ret : String → Bool) (inc : Option String) (taxes : List Combo)
+    (hret : ∀ k, inc = some k → ret k = false) (h : ∀ cb ∈ taxes, incPosB inc cb = true) : IncPos ret inc taxes := by
+  intro k hk
+  refine ⟨hret k hk, ?_⟩
+  intro cb hcb hcat p hp
+  have h1 := h cb hcb
+  subst hk
+  simp only [incPosB, hcat, BEq.rfl, Bool.not_true, Bool.false_or, hp] at h1
+  have hv : 0 ≤ p.amount.value := of_decide_eq_true h1
+  unfold Amount.toRat
+  have := p10q_pos p.amount.exp
+  have hv' : (0 : ℚ) ≤ (p.amount.value : ℚ) := by exact_mod_cast hv
+  positivity
+
+theorem inDocI_sound (d : Doc) (h : inDocI d = true) : DocCI (retOf d) d := by
+  unfold inDocI at h
+  simp only [Bool.and_eq_true, List.all_eq_true] at h
+  obtain ⟨⟨⟨⟨⟨⟨⟨⟨h1, h2⟩, h3⟩, h4⟩, h5⟩, h6⟩, h7⟩, h10⟩, h11⟩ := h
+  have hret : ∀ k, d.includes = some k → retOf d k = false := by
+    intro k hk
+    simp only [hk] at h6
+    simpa using h6
+  have hall : ∀ cb ∈ allCombos d, ComboOk (retOf d) cb ∧ incPosB d.includes cb = true :=
+    fun cb hcb => ⟨comboOkB_sound _ cb (h7 cb hcb).1, (h7 cb hcb).2⟩
+  have mL : ∀ l ∈ d.lines, ∀ cb ∈ l.taxes, cb ∈ allCombos d := by
+    intro l hl cb hcb
+    simp only [allCombos, List.mem_append, List.mem_flatMap]
+    exact Or.inl (Or.inl ⟨l, hl, hcb⟩)
+  have mD : ∀ x ∈ d.discounts, ∀ cb ∈ x.taxes, cb ∈ allCombos d := by
+    intro x hx cb hcb
+    simp only [allCombos, List.mem_append, List.mem_flatMap]
+    exact Or.inl (Or.inr ⟨x, hx, hcb⟩)
+  have mC : ∀ x ∈ d.charges, ∀ cb ∈ x.taxes, cb ∈ allCombos d := by
+    intro x hx cb hcb
+    simp only [allCombos, List.mem_append, List.mem_flatMap]
+    exact Or.inr ⟨x, hx, hcb⟩
+  refine ⟨⟨⟨by simpa using h1, ?_, fun l hl => adjLineB_sound d.c l (h3 l hl),
+      fun x hx => docAdjOkB_sound d.c x (h4 x hx), fun x hx => docAdjOkB_sound d.c x (h5 x hx)⟩,
+    fun l hl cb hcb => (hall cb (mL l hl cb hcb)).1,
+    fun x hx cb hcb => (hall cb (mD x hx cb hcb)).1,
+    fun x hx cb hcb => (hall cb (mC x hx cb hcb)).1,
+    fun l hl => incPosB_sound _ _ _ hret (fun cb hcb => (hall cb (mL l hl cb hcb)).2),
+    fun x hx => incPosB_sound _ _ _ hret (fun cb hcb => (hall cb (mD x hx cb hcb)).2),
+    fun x hx => incPosB_sound _ _ _ hret (fun cb hcb => (hall cb (mC x hx cb hcb)).2)⟩, ?_,
+    fun a ha => advOkB_sound d.c a (h11 a ha)⟩
+  · intro hne; simp [hne] at h2
+  · intro x hx
+    simp only [hx] at h10
+    exact of_decide_eq_true h10
+
+theorem docWeightI_eq (d : Doc) (out : Out) (t : Totals) (hcalc : calculate exactOps d = .ok out)
+    (ht : out.totals = some t) : docWeightI d = dueWI d (groupsT t) (incGroupsT d.includes t) := by
+  unfold docWeightI
+  rw [hcalc]
+  simp only [ht]
+
 end Err
 end Calc
 end GoblVerif
